@@ -24,14 +24,52 @@ const REF_FAULTS: &[(&str, &[&str])] = &[
     ("signed-reference", &["&#+65;", "&#x+41;"]),
 ];
 
+/// Declarations Namespaces in XML 1.0 section 3 forbids and `DocumentBuilder::prefix` rejects
+/// (InvalidNamespaceDeclaration): the prefix `xmlns` declared, another prefix than `xml` (or the
+/// default namespace) bound to the XML namespace name, anything bound to the xmlns namespace name
+/// (the URI is compared after decoding).
 pub const RESERVED_DECLS: &[&str] = &[
-    " xmlns:xml='urn:zzz'",
-    " xmlns:xml=''",
     " xmlns:xmlns='urn:zzz'",
+    " xmlns:xmlns=''",
     " xmlns:xmlns='http://www.w3.org/2000/xmlns/'",
     " xmlns:zr='http://www.w3.org/XML/1998/namespace'",
     " xmlns:zr='http://www.w3.org/2000/xmlns/'",
+    " xmlns:xml='http://www.w3.org/2000/xmlns/'",
     " xmlns='http://www.w3.org/XML/1998/namespace'",
+    " xmlns='http://www.w3.org/2000/xmlns/'",
+    " xmlns:zr='http://www.w3.org/2000/xmlns&#x2F;'",
+    " xmlns:zr=\"http://www.w3.org/XML/1998/n&#97;mespace\"",
+];
+
+/// The prefix `xml` bound to another namespace name: forbidden as well, but accepted by xot (its
+/// own test `test_namespaces_overrides_xml_prefix` pins that): C03:xml-prefix-rebound-accepted.
+pub const XML_REBINDINGS: &[&str] = &[" xmlns:xml='urn:zzz'", " xmlns:xml=''", " xmlns:xml=\"zzz\""];
+
+/// A PI whose target is `xml` in some letter case, as the tokenizer lets it through (it refuses
+/// `<?xml` + space itself): rejected by `Xot::_parse` (InvalidTarget).
+pub const XML_TARGET_PIS: &[&str] = &["<?xml\tx?>", "<?xml?>", "<?XmL x?>", "<?XML?>", "<?xml\nversion='1.0'?>", "<?xmL  d ?>"];
+
+/// Inputs with exactly one of the faults above, run in both modes with the variant pinned.
+pub const PINNED_REJECTS: &[(&str, &str)] = &[
+    ("<a xmlns:xmlns='zzz'/>", "reserved-prefix-or-namespace-rebound"),
+    ("<a xmlns:xmlns='http://www.w3.org/2000/xmlns/'/>", "reserved-prefix-or-namespace-rebound"),
+    ("<a xmlns:p='http://www.w3.org/XML/1998/namespace'/>", "reserved-prefix-or-namespace-rebound"),
+    ("<a xmlns='http://www.w3.org/XML/1998/namespace'/>", "reserved-prefix-or-namespace-rebound"),
+    ("<a xmlns:p='http://www.w3.org/2000/xmlns/'/>", "reserved-prefix-or-namespace-rebound"),
+    ("<a xmlns='http://www.w3.org/2000/xmlns/'/>", "reserved-prefix-or-namespace-rebound"),
+    ("<a xmlns:xml='http://www.w3.org/2000/xmlns/'/>", "reserved-prefix-or-namespace-rebound"),
+    ("<a xmlns:p='http://www.w3.org/2000/xmlns&#x2F;'/>", "reserved-prefix-or-namespace-rebound"),
+    ("<a xmlns:p='http://www.w3.org/XML/1998/namespace' p:id='  x   y '/>", "reserved-prefix-or-namespace-rebound"),
+    ("<a xmlns:p='u'><b xmlns:xmlns='u'/></a>", "reserved-prefix-or-namespace-rebound"),
+    ("<a xmlns:p=''/>", "prefixed-undeclaration"),
+    ("<a xmlns:p=\"\"><p:b/></a>", "prefixed-undeclaration"),
+    ("<a xmlns:p='' p:xmlns='v'/>", "prefixed-undeclaration"),
+    ("<a xmlns:p='u'><b xmlns:p=''/></a>", "prefixed-undeclaration"),
+    ("<a><?xml\tx?></a>", "pi-target-xml"),
+    ("<a><?xml?></a>", "pi-target-xml"),
+    ("<a><?XmL x?></a>", "pi-target-xml"),
+    ("<?xml\tx?><a/>", "pi-target-xml"),
+    ("<a/><?XML?>", "pi-target-xml"),
 ];
 
 /// A complete element whose end tag spells the start tag's expanded name differently.
@@ -41,7 +79,6 @@ pub const OTHER_PREFIX_END_TAGS: &[&str] = &[
     "<e xmlns='urn:zz' xmlns:zq='urn:zz'></zq:e>",
     "<zq:e xmlns='urn:zz' xmlns:zq='urn:zz'></e>",
     "<zo xmlns:zp='urn:zz' xmlns:zq='urn:zz'><zp:e><zq:e/></zq:e></zo>",
-    "<xml:e xmlns:zq='http://www.w3.org/XML/1998/namespace'></zq:e>",
 ];
 
 /// Every (fault name, damaged text) for a rendered input; `all` = every applicable position,
@@ -81,8 +118,9 @@ pub fn faults(r: &Rendered, rng: &mut Rng, all: bool) -> Vec<(String, String)> {
         // (`xmlns:xml="http://www.w3.org/XML/1998/namespace"` is legal: the renderer writes it.)
         let reserved = *rng.pick(RESERVED_DECLS);
         out.push(("reserved-prefix-or-namespace-rebound".into(), insert_at(t, at, reserved)));
+        out.push(("xml-prefix-rebound".into(), insert_at(t, at, *rng.pick(XML_REBINDINGS))));
         // Namespaces in XML 1.0 section 3, NSC 'No Prefix Undeclaring': only the default namespace can be undeclared
-        out.push(("prefixed-undeclaration".into(), insert_at(t, at, *rng.pick(&[" xmlns:zr=''", " xmlns:zr=\"\""]))));
+        out.push(("prefixed-undeclaration".into(), insert_at(t, at, *rng.pick(&[" xmlns:zr=''", " xmlns:zr=\"\"", " xmlns:p=''"]))));
     }
     for at in cap(r.text_points.clone(), rng) {
         out.push(("raw-lt-in-text".into(), insert_at(t, at, "< ")));
@@ -92,6 +130,7 @@ pub fn faults(r: &Rendered, rng: &mut Rng, all: bool) -> Vec<(String, String)> {
         out.push(("end-tag-with-other-prefix".into(), insert_at(t, at, *rng.pick(OTHER_PREFIX_END_TAGS))));
         out.push(("cdata-end-in-text".into(), insert_at(t, at, "]]>")));
         out.push(("double-hyphen-in-comment".into(), insert_at(t, at, "<!-- a -- b -->")));
+        out.push(("pi-target-xml".into(), insert_at(t, at, *rng.pick(XML_TARGET_PIS))));
         if !t[at..].starts_with(';') {
             out.push(("unterminated-reference".into(), insert_at(t, at, "&lt")));
         }
@@ -129,13 +168,9 @@ pub fn faults(r: &Rendered, rng: &mut Rng, all: bool) -> Vec<(String, String)> {
         out.push(("duplicate-xml-id".into(), s1));
         let s2 = insert_at(&insert_at(t, b, " xml:id='  dupv '"), a, " xml:id='dupv'");
         out.push(("duplicate-xml-id-after-normalisation".into(), s2));
-        // the same through a prefix that is bound to the XML namespace: it is the expanded name
-        // that makes an attribute an xml:id (both orders, values that need normalisation)
-        let alias = " xmlns:zx='http://www.w3.org/XML/1998/namespace' zx:id='  dupv '";
-        let alias2 = " zx:id=\"dupv  \" xmlns:zx=\"http://www.w3.org/XML/1998/namespace\"";
-        out.push(("duplicate-xml-id-via-other-prefix".into(), insert_at(&insert_at(t, b, alias), a, " xml:id='dupv'")));
-        out.push(("duplicate-xml-id-via-other-prefix".into(), insert_at(&insert_at(t, b, " xml:id=' dupv'"), a, alias2)));
-        out.push(("duplicate-xml-id-via-other-prefix".into(), insert_at(&insert_at(t, b, alias), a, alias2)));
+    }
+    for at in cap(r.top_points.clone(), rng) {
+        out.push(("pi-target-xml".into(), insert_at(t, at, *rng.pick(&XML_TARGET_PIS[1..]))));
     }
     if r.fragment {
         for at in cap(r.top_points.clone(), rng) {
@@ -169,13 +204,28 @@ pub fn faults(r: &Rendered, rng: &mut Rng, all: bool) -> Vec<(String, String)> {
 
 pub const XMLNS_NS: &str = "http://www.w3.org/2000/xmlns/";
 
-/// Namespaces in XML 1.0 on the declarations among the tokens: (a reserved prefix or namespace
-/// name is bound against section 3, a prefix is declared with an empty namespace name, the prefix
-/// `xml` itself is bound to another namespace name — a special case of the first).
+/// Namespaces in XML 1.0 section 3 on what the tokens show (whatever produced the input).
+#[derive(Default)]
+pub struct NsViolations {
+    /// the prefix `xmlns` declared, another prefix than `xml` (or the default namespace) bound to
+    /// the XML namespace name, anything bound to the xmlns namespace name
+    pub reserved: bool,
+    /// a prefix (other than `xml`) declared with an empty namespace name
+    pub undeclared: bool,
+    /// the prefix `xml` bound to another name than the XML namespace name (`xmlns:xml=""` included):
+    /// the one shape xot accepts
+    pub xml_rebound: bool,
+    /// a PI whose target is `xml` in some letter case (XML 1.0 section 2.6)
+    pub xml_pi: bool,
+}
+
 /// `xmlns:xml="http://www.w3.org/XML/1998/namespace"` is legal.
-pub fn namespace_constraint_violations(dump: &Dump) -> (bool, bool, bool) {
-    let (mut reserved, mut undeclared, mut xml_rebound) = (false, false, false);
+pub fn namespace_constraint_violations(dump: &Dump) -> NsViolations {
+    let mut v = NsViolations::default();
     for t in &dump.toks {
+        if let Tok::PI { target } = t {
+            v.xml_pi |= target.eq_ignore_ascii_case("xml");
+        }
         if let Tok::Attr { prefix, local, value, .. } = t {
             let p = if prefix == "xmlns" {
                 local.as_str()
@@ -188,13 +238,14 @@ pub fn namespace_constraint_violations(dump: &Dump) -> (bool, bool, bool) {
                 Some(u) => u,
                 None => continue,
             };
-            if p == "xmlns" || uri == XMLNS_NS || (p == "xml") != (uri == XML_NS) {
-                reserved = true;
-                xml_rebound |= p == "xml" && uri != XML_NS;
+            if p == "xmlns" || uri == XMLNS_NS || (p != "xml" && uri == XML_NS) {
+                v.reserved = true;
+            } else if p == "xml" {
+                v.xml_rebound |= uri != XML_NS;
             } else if !p.is_empty() && uri.is_empty() {
-                undeclared = true;
+                v.undeclared = true;
             }
         }
     }
-    (reserved, undeclared, xml_rebound)
+    v
 }
